@@ -94,8 +94,9 @@ Fixpoint dedup (l : list N) : list N :=
 Definition atoms_in_t (t : list (N * N * N)) (rs : cclass) : list N :=
   dedup (map e_atom (filter (entry_in rs) t)).
 Definition aligned_t (t : list (N * N * N)) (rs : cclass) : bool :=
+  let covered := atoms_in_t t rs in       (* computed once *)
   forallb (fun e => if entry_in rs e then true
-                    else entry_out rs e && negb (memN (e_atom e) (atoms_in_t t rs))) t
+                    else entry_out rs e && negb (memN (e_atom e) covered)) t
   && forallb (fun r => snd r <=? max_cp) rs.
 Definition atoms_in := atoms_in_t atom_table.
 Definition aligned := aligned_t atom_table.
